@@ -182,6 +182,8 @@ def run_case(case, seed):
                     ("normQsparse", lambda: u.normQsparse(*comps(A)), expF, 16 * O.U * 4 * m * n * expF),
                     ("normQsparse(sp)", lambda: u.normQsparse(*[sp.csr_matrix(c) for c in comps(A)]), expF, 16 * O.U * 4 * m * n * expF),
                     ("normQsparse(csc_matrix)", lambda: u.normQsparse(*[sp.csc_matrix(c) for c in comps(A)]), expF, 16 * O.U * 4 * m * n * expF),
+                    ("normQsparse(np.matrix)", lambda: u.normQsparse(*[np.asmatrix(c) for c in comps(A)]), expF, 16 * O.U * 4 * m * n * expF),
+                    ("normQsparse(todense)", lambda: u.normQsparse(*[sp.csr_matrix(c).todense() for c in comps(A)]), expF, 16 * O.U * 4 * m * n * expF),
                     ("normQsparse(coo_matrix)", lambda: u.normQsparse(*[sp.coo_matrix(c) for c in comps(A)]), expF, 16 * O.U * 4 * m * n * expF),
                     ("normQsparse(csr_array)", lambda: u.normQsparse(*[sp.csr_array(c) for c in comps(A)]), expF, 16 * O.U * 4 * m * n * expF),
                     ("normQsparse(coo_array)", lambda: u.normQsparse(*[sp.coo_array(c) for c in comps(A)]), expF, 16 * O.U * 4 * m * n * expF),
